@@ -208,6 +208,11 @@ def solve_obligation(ob, budget_s, tmpdir, tag):
         return "unsat", "z3-5.1", time.time() - t0, None, smt2
     if r == z3.sat:
         return "sat", "z3-5.1", time.time() - t0, sx.model(), smt2
+    # the tracked strategy once more with a real budget: obligations that sit on an infeasible path of a string
+    # scanner need 2-4 s of it on an idle machine (more when all cores are busy) where the default pipeline needs 20-50 s
+    r, sx = z3_try(min(12.0, budget_s), tracked=True)
+    if r == z3.unsat:
+        return "unsat", "z3-5.1", time.time() - t0, None, smt2
     if not _prefer_cvc5[0]:
         first = wait_cvc5(start_cvc5(), budget_s + 5)
         if first == "unsat":
